@@ -5,7 +5,8 @@ import destgen as D
 ID = "C21"
 GEN = ["AtNames"]
 THEOREMS = ["C21_drop_only_in_ns", "C21_top_level_accepts", "C21_push_item_preserves", "C21_close_no_loss",
-            "C21_main", "C21_refuted_ns", "C21_error_propagates", "C21_loop_error_not_overwritten"]
+            "C21_main", "C21_statement_keeps", "C21_nsrule_block_is_error", "C21_error_propagates",
+            "C21_loop_error_not_overwritten"]
 COQ_HEADER = ("From Coq Require Import List NArith ZArith.\nFrom RV Require Import Model.Out Model.OutDest Spec.Reach Run.C21.\n"
               "Import ListNotations.\nLocal Open Scope N_scope.")
 RUN_EXPR = "Run.C21.run"
@@ -62,18 +63,17 @@ def coq_term(c, io):
     return f"(mkCase {D.program_coq(c['prog'])} {D.impl_coq(io[0])} {D.impl_coq(io[1])})"
 
 
-K1 = "known_C21_block_in_nsrule"
 
 
 def judge(c, io, r):
-    ce, cc, p1, p2, pe, kns, lost = r
+    ce, cc, p1, p2, pe, lost = r
     corr = None if 2 in (ce, cc) else (ce == 1 and cc == 1)
     tags = ["ok" if io[0][0] == "ok" else io[0][0]]
     if lost:
         tags.append("model-swallowed-error")
     return {"corr": corr,
-            "clauses": [("present/expanded", p1 == 1, K1 if kns else None),
-                        ("present/compressed", p2 == 1, K1 if kns else None),
+            "clauses": [("present/expanded", p1 == 1, None),
+                        ("present/compressed", p2 == 1, None),
                         ("error-propagates", pe == 1, None)],
             "nontrivial": True, "tags": tags,
             "show": c["src"][:160], "detail": c["src"], "key": c["src"]}
@@ -86,11 +86,11 @@ def shrink(c):
 
 LEVEL_TEXT = ("proof: in the model of the four destinations (with their Drop impls that log and continue) push_item fails only "
               "inside a nested-property destination, a successful push and a Drop without a nested-property ancestor preserve the "
-              "multiset of leaf items (any additive weight), a program without nested-property blocks swallows no error "
-              "(induction over the evaluator, all fuels, both styles), and a run that reaches @error in any statement position does "
-              "not succeed; the full statement is refuted for an at-rule block inside a nested-property block (F24); the model is "
-              "tied to rsass by byte-exact correspondence of whole compilations, and marker presence / error results are decided in "
-              "Coq on rsass's output")
-LEVEL_NOTE = ("partial: the program-level theorem is `no error swallowed`; presence of every marker in the final text is decided "
-              "on explored programs; loaded modules (@use/@import) are not in the model")
+              "multiset of leaf items, and - since rsass ac4acd7 refuses to open at-rule destinations inside a nested-property block - "
+              "EVERY program of the statement subset, for every fuel and both styles, ends a successful run with no swallowed error "
+              "(induction over the evaluator with the invariant `nested-property frames only on top`); a run that reaches @error in any "
+              "statement position, also in a non-final loop iteration, does not succeed; the model is tied to rsass by byte-exact "
+              "correspondence of whole compilations, and marker presence / error results are decided in Coq on rsass's output")
+LEVEL_NOTE = ("partial: presence of every marker in the final text is decided on explored programs; loaded modules (@use/@import) "
+              "are not in the model. F24 is fixed (no open finding)")
 TECHNIQUE = "Coq proof (induction over fuel / frame stacks, additive measures) + translator (at-rule name tables) + differential correspondence"
